@@ -353,7 +353,7 @@ pub fn run(ctx: &mut Ctx) {
         "short:len0", "short:len1", "short:len2", "short:len3", "short:len4", "outcome:accepted", "outcome:0x01",
         "outcome:0x12", "outcome:0x14", "mut:grow-bytes", "mut:grow-text", "mut:grow-array", "mut:int-range",
         "mut:type-replace", "mut:nest:>64", "mut:dup-entry", "mut:corrupt-utf8", "mut:unknown-deep:>64", "mut:head:Wider",
-        "mut:head:Indefinite", "mut:head:Lie", "mut:byte:flip", "mut:byte:insert", "mut:byte:delete", "mut:byte:splice", "mut:byte:truncate",
+        "mut:head:Indefinite", "mut:head:Lie", "mut:byte:flip", "mut:byte:insert", "mut:byte:delete", "mut:byte:splice", "mut:byte:truncate", "mut:byte:append",
         "length-lie", "lie:major2", "lie:major3", "lie:major4", "lie:major5", "deep:>64", "deep:>=7000", "deep:truncated-at-7609", "len>1024",
     ]);
 }
